@@ -7,6 +7,7 @@ import (
 	"go.flow.arcalot.io/engine/internal/infer"
 	"go.flow.arcalot.io/engine/internal/tablefmt"
 	"go.flow.arcalot.io/engine/internal/tableprinter"
+	"go.flow.arcalot.io/engine/internal/verifhook"
 	"io"
 	"reflect"
 	"strings"
@@ -74,6 +75,7 @@ func (e *executableWorkflow) Execute(ctx context.Context, serializedInput any) (
 
 	unserializedInput, err := e.input.Unserialize(serializedInput)
 	if err != nil {
+		verifhook.Emit("InputInvalid", "wf", e)
 		return "", nil, fmt.Errorf("invalid workflow input (%w)", err)
 	}
 	reSerializedInput, err := e.input.Serialize(unserializedInput)
@@ -112,6 +114,8 @@ func (e *executableWorkflow) Execute(ctx context.Context, serializedInput any) (
 		lifecycles:        e.lifecycles,
 	}
 
+	verifhook.Emit("RunBegin", "run", l, "wf", e)
+	defer func() { verifhook.Emit("Return", "run", l, "id", outputID, "err", err) }()
 	l.lock.Lock()
 
 	// Iterate over all steps to set them up with proper handlers, then launch them.
@@ -145,6 +149,7 @@ func (e *executableWorkflow) Execute(ctx context.Context, serializedInput any) (
 					waitingForInputText = " and is waiting for input"
 				}
 				e.logger.Debugf("Stage change for step %s to %s%s...", stepID, stage, waitingForInputText)
+				verifhook.Emit("HCall", "run", l, "h", "SC", "step", stepID, "new", stage)
 				l.onStageComplete(stepID, previousStage, previousStageOutputID, previousStageOutput, wg)
 			},
 			onStepComplete: func(
@@ -159,6 +164,7 @@ func (e *executableWorkflow) Execute(ctx context.Context, serializedInput any) (
 				} else {
 					e.logger.Debugf("Step %s completed with stage '%s'...", stepID, previousStage)
 				}
+				verifhook.Emit("HCall", "run", l, "h", "CO", "step", stepID)
 				l.onStageComplete(stepID, &previousStage, previousStageOutputID, previousStageOutput, wg)
 			},
 			onStepStageFailure: func(_ step.RunningStep, stage string, _ *sync.WaitGroup, err error) {
@@ -167,8 +173,11 @@ func (e *executableWorkflow) Execute(ctx context.Context, serializedInput any) (
 				} else {
 					e.logger.Debugf("Step %q stage %q declared that it will not produce an output (%s)", stepID, stage, err.Error())
 				}
+				verifhook.Gate("wf.failure.beforeLock", "run", l, "step", stepID)
 				l.lock.Lock()
 				defer l.lock.Unlock()
+				verifhook.Emit("HEnter", "run", l, "h", "F", "step", stepID, "stage", stage)
+				defer verifhook.Emit("HExit", "run", l)
 				l.markOutputsUnresolvable(stepID, stage, nil)
 				l.markStageNodeUnresolvable(stepID, stage)
 				l.notifySteps()
@@ -180,11 +189,13 @@ func (e *executableWorkflow) Execute(ctx context.Context, serializedInput any) (
 			return "", nil, fmt.Errorf("failed to launch step %s (%w)", stepID, err)
 		}
 		l.runningSteps[stepID] = runningStep
+		verifhook.Emit("StepStart", "run", l, "step", stepID, "obj", runningStep)
 	}
 	l.lock.Unlock()
 	// Let's make sure we are closing all steps once this function terminates so we don't leave stuff running.
 	defer l.terminateAllSteps()
 
+	verifhook.Gate("wf.main.beforeKickoff", "run", l)
 	// We remove the input node from the DAG and call the notifySteps function once to trigger the workflow
 	// start.
 	e.logger.Debugf("Starting workflow execution...\n%s", l.dag.Mermaid())
@@ -204,9 +215,12 @@ func (e *executableWorkflow) Execute(ctx context.Context, serializedInput any) (
 		// This is to prevent a deadlock.
 		l.lock.Lock()
 		defer l.lock.Unlock()
+		verifhook.Emit("HEnter", "run", l, "h", "K")
+		defer verifhook.Emit("HExit", "run", l)
 		l.notifySteps()
 	}()
 
+	verifhook.Gate("wf.main.beforeSelect", "run", l)
 	// Now we wait for the workflow results.
 	select {
 	case outputDataEntry, ok := <-l.outputDataChannel:
@@ -215,8 +229,10 @@ func (e *executableWorkflow) Execute(ctx context.Context, serializedInput any) (
 			return "", nil,
 				fmt.Errorf("output data channel unexpectedly closed. %w", lastErrors)
 		}
+		verifhook.Emit("Select", "run", l, "branch", "output")
 		return e.handleOutput(l, outputDataEntry)
 	case <-ctx.Done():
+		verifhook.Emit("Select", "run", l, "branch", "ctx")
 		lastErrors := l.handleErrors()
 		if lastErrors == nil {
 			e.logger.Warningf(
@@ -244,14 +260,18 @@ func (e *executableWorkflow) Execute(ctx context.Context, serializedInput any) (
 						"output data channel unexpectedly closed while waiting after execution aborted (%w)",
 						lastErrors)
 			}
+			verifhook.Emit("Select", "run", l, "branch", "grace-output")
 			return e.handleOutput(l, outputDataEntry)
 		case err := <-l.recentErrors: // The context is done, so instead just check for errors.
+			verifhook.Emit("Select", "run", l, "branch", "grace-error")
 			// Put it back in the channel
+			verifhook.Emit("ErrPush", "run", l, "kind", "reinsert", "len", len(l.recentErrors))
 			l.recentErrors <- err
 			lastErrors := l.handleErrors()
 			l.logger.Errorf("workflow failed with error %s", err.Error())
 			return "", nil, lastErrors
 		case <-timedContext.Done():
+			verifhook.Emit("Select", "run", l, "branch", "grace-timeout")
 			lastErrors := l.handleErrors()
 			var errMsg string
 			if lastErrors == nil {
@@ -322,9 +342,11 @@ func (l *loopState) terminateAllSteps() {
 	l.logger.Debugf("Terminating all steps...")
 	for stepID, runningStep := range l.runningSteps {
 		l.logger.Debugf("Terminating step %s...", stepID)
+		verifhook.Emit("TermStep", "run", l, "step", stepID)
 		if err := runningStep.ForceClose(); err != nil {
 			panic(fmt.Errorf("failed to close step %s (%w)", stepID, err))
 		}
+		verifhook.Emit("TermStepRet", "run", l, "step", stepID)
 	}
 }
 
@@ -342,6 +364,7 @@ errGatherLoop:
 			break errGatherLoop // No more errors
 		}
 	}
+	verifhook.Emit("Drain", "run", l, "n", len(errors))
 	switch len(errors) {
 	case 0:
 		fallthrough
@@ -375,27 +398,34 @@ func (l *loopState) onStageComplete(
 	previousStageOutput *any,
 	wg *sync.WaitGroup,
 ) {
+	verifhook.Gate("wf.handler.beforeLock", "run", l, "step", stepID)
 	l.lock.Lock()
 	defer func() {
 		if previousStage != nil {
 			l.checkForDeadlocks(3, wg)
 		}
+		verifhook.Emit("HExit", "run", l)
 		l.lock.Unlock()
 	}()
 
+	verifhook.Emit("HEnter", "run", l, "h", "S", "step", stepID, "prev", previousStage, "out", previousStageOutputID, "data", previousStageOutput)
 	if previousStage == nil {
 		return
 	}
 	stageNode, err := l.dag.GetNodeByID(GetStageNodeID(stepID, *previousStage))
 	if err != nil {
 		l.logger.Errorf("Failed to get stage node ID %s (%w)", GetStageNodeID(stepID, *previousStage), err)
+		verifhook.Emit("ErrPush", "run", l, "kind", "getstage", "len", len(l.recentErrors))
 		l.recentErrors <- fmt.Errorf("failed to get stage node ID %s (%w)", GetStageNodeID(stepID, *previousStage), err)
 		l.cancel()
 		return
 	}
 	l.logger.Debugf("Resolving node %q in the DAG on stage complete", stageNode.ID())
+	verifhook.Emit("Resolve", "run", l, "node", stageNode.ID(), "status", "R")
 	if err := stageNode.ResolveNode(dgraph.Resolved); err != nil {
 		errMessage := fmt.Errorf("failed to resolve stage node ID %s (%s)", stageNode.ID(), err.Error())
+		verifhook.Emit("ResolveErr", "run", l, "err", err)
+		verifhook.Emit("ErrPush", "run", l, "kind", "resolvestage", "len", len(l.recentErrors))
 		l.recentErrors <- errMessage
 		l.cancel()
 		return
@@ -404,6 +434,7 @@ func (l *loopState) onStageComplete(
 		outputNode, err := l.dag.GetNodeByID(GetOutputNodeID(stepID, *previousStage, *previousStageOutputID))
 		if err != nil {
 			l.logger.Errorf("Failed to get output node ID %s (%w)", GetStageNodeID(stepID, *previousStage), err)
+			verifhook.Emit("ErrPush", "run", l, "kind", "getoutput", "len", len(l.recentErrors))
 			l.recentErrors <- fmt.Errorf("failed to get output node ID %s (%w)", GetStageNodeID(stepID, *previousStage), err)
 			l.cancel()
 			return
@@ -411,8 +442,11 @@ func (l *loopState) onStageComplete(
 		// Resolves the node in the DAG. This allows us to know which nodes are
 		// ready for processing due to all dependencies being resolved.
 		l.logger.Debugf("Resolving output node %q in the DAG", outputNode.ID())
+		verifhook.Emit("Resolve", "run", l, "node", outputNode.ID(), "status", "R")
 		if err := outputNode.ResolveNode(dgraph.Resolved); err != nil {
 			l.logger.Errorf("Failed to resolve output node ID %s (%w)", outputNode.ID(), err)
+			verifhook.Emit("ResolveErr", "run", l, "err", err)
+			verifhook.Emit("ErrPush", "run", l, "kind", "resolveoutput", "len", len(l.recentErrors))
 			l.recentErrors <- fmt.Errorf("failed to resolve output node ID %s (%w)", outputNode.ID(), err)
 			l.cancel()
 			return
@@ -459,8 +493,10 @@ func (l *loopState) markOutputsUnresolvable(stepID string, stageID string, skipp
 				continue
 			}
 			l.logger.Debugf("Will mark node %s in the DAG as unresolvable", stepID+"."+stage.ID+"."+stageOutputID)
+			verifhook.Emit("Resolve", "run", l, "node", unresolvableOutputNode.ID(), "status", "U")
 			err = unresolvableOutputNode.ResolveNode(dgraph.Unresolvable)
 			if err != nil {
+				verifhook.Emit("ResolveErr", "run", l, "err", err)
 				panic(fmt.Errorf("error while marking node %s in DAG as unresolvable (%s)", unresolvableOutputNode.ID(), err.Error()))
 			}
 		}
@@ -478,8 +514,10 @@ func (l *loopState) markStageNodeUnresolvable(stepID string, stageID string) {
 		return
 	}
 	l.logger.Debugf("Will mark node %s in the DAG as unresolvable", stepID+"."+stageID)
+	verifhook.Emit("Resolve", "run", l, "node", unresolvableOutputNode.ID(), "status", "U")
 	err = unresolvableOutputNode.ResolveNode(dgraph.Unresolvable)
 	if err != nil {
+		verifhook.Emit("ResolveErr", "run", l, "err", err)
 		panic(
 			fmt.Errorf(
 				"error while marking node %s in DAG as unresolvable (%s)",
@@ -495,11 +533,13 @@ func (l *loopState) markStageNodeUnresolvable(stepID string, stageID string) {
 // The lock should be acquired by the caller before this is called.
 func (l *loopState) notifySteps() { //nolint:gocognit
 	readyNodes := l.dag.PopReadyNodes()
+	verifhook.Emit("Pop", "run", l, "ready", readyNodes)
 	l.logger.Debugf("Currently %d DAG nodes are ready. Now processing them.", len(readyNodes))
 
 	// Can include runnable nodes, nodes that cannot be resolved, and nodes that are not for running, like inputs.
 	for nodeID, resolutionStatus := range readyNodes {
 		failed := resolutionStatus == dgraph.Unresolvable
+		verifhook.Emit("Node", "run", l, "node", nodeID, "failed", failed)
 		l.logger.Debugf("Processing step node %s with resolution status %q", nodeID, resolutionStatus)
 		node, err := l.dag.GetNodeByID(nodeID)
 		if err != nil {
@@ -513,6 +553,7 @@ func (l *loopState) notifySteps() { //nolint:gocognit
 				// cancel the context.
 				delete(l.waitingOutputs, nodeID)
 				if len(l.waitingOutputs) == 0 && !l.outputDone {
+					verifhook.Emit("ErrPush", "run", l, "kind", "nooutputs", "len", len(l.recentErrors))
 					l.recentErrors <- &ErrNoMorePossibleOutputs{
 						l.dag,
 					}
@@ -528,7 +569,9 @@ func (l *loopState) notifySteps() { //nolint:gocognit
 		if inputData == nil {
 			switch nodeItem.Kind {
 			case DagItemKindDependencyGroup:
+				verifhook.Emit("Resolve", "run", l, "node", nodeID, "status", "R")
 				if err := node.ResolveNode(dgraph.Resolved); err != nil {
+					verifhook.Emit("ResolveErr", "run", l, "err", err)
 					panic(fmt.Errorf("error occurred while resolving workflow OR group node (%s)", err.Error()))
 				}
 				l.notifySteps() // Needs to be called after resolving a node.
@@ -542,6 +585,7 @@ func (l *loopState) notifySteps() { //nolint:gocognit
 		// Resolve any expressions in the input data.
 		// untypedInputData stores the resolved data
 		untypedInputData, err := l.resolveExpressions(inputData, l.data)
+		verifhook.Emit("Eval", "run", l, "node", nodeID, "err", err, "data", untypedInputData)
 		if err != nil {
 			// An error here often indicates a locking issue in a step provider. This could be caused
 			// by the lock not being held when the output was marked resolved.
@@ -560,6 +604,7 @@ func (l *loopState) notifySteps() { //nolint:gocognit
 			// Tries to match the schema
 			if _, err := nodeItem.DataSchema.Unserialize(untypedInputData); err != nil {
 				l.logger.Errorf("Bug: schema evaluation resulted in invalid data for %s (%v)", nodeID, err)
+				verifhook.Emit("ErrPush", "run", l, "kind", "bug:schema", "len", len(l.recentErrors))
 				l.recentErrors <- fmt.Errorf("bug: schema evaluation resulted in invalid data for %s (%w)", nodeID, err)
 				l.cancel()
 				return
@@ -578,11 +623,13 @@ func (l *loopState) notifySteps() { //nolint:gocognit
 			}
 			// Sends it to the plugin
 			l.logger.Debugf("Providing stage input for %s...", nodeID)
+			verifhook.Emit("Provide", "run", l, "step", nodeItem.StepID, "stage", nodeItem.StageID)
 			if err := l.runningSteps[nodeItem.StepID].ProvideStageInput(
 				nodeItem.StageID,
 				typedInputData,
 			); err != nil {
 				l.logger.Errorf("Bug: failed to provide input to step %s (%w)", nodeItem.StepID, err)
+				verifhook.Emit("ErrPush", "run", l, "kind", "bug:provide", "len", len(l.recentErrors), "err", err)
 				l.recentErrors <- fmt.Errorf("bug: failed to provide input to step %s (%w)", nodeItem.StepID, err)
 				l.cancel()
 				return
@@ -594,6 +641,7 @@ func (l *loopState) notifySteps() { //nolint:gocognit
 				l.logger.Warningf("Workflow already done. Skipping output.")
 			} else {
 				l.outputDone = true
+				verifhook.Emit("OutSend", "run", l, "id", nodeItem.OutputID)
 
 				// When this function is called, the lock should be acquired, so no
 				// other copies of this should be attempting to write to the output
@@ -607,7 +655,9 @@ func (l *loopState) notifySteps() { //nolint:gocognit
 				close(l.outputDataChannel)
 			}
 
+			verifhook.Emit("Resolve", "run", l, "node", nodeID, "status", "R")
 			if err := node.ResolveNode(dgraph.Resolved); err != nil {
+				verifhook.Emit("ResolveErr", "run", l, "err", err)
 				l.logger.Errorf("BUG: Error occurred while resolving workflow output node (%s)", err.Error())
 			}
 		default:
@@ -648,6 +698,7 @@ func (l *loopState) checkForDeadlocks(retries int, wg *sync.WaitGroup) {
 	// Here we make sure we don't have a deadlock.
 	counters := l.countStates()
 	hasReadyNodes := l.dag.HasReadyNodes()
+	verifhook.Emit("Det", "run", l, "retries", retries, "starting", counters.starting, "waiting", counters.waiting, "running", counters.running, "finished", counters.finished, "hasReady", hasReadyNodes, "outputDone", l.outputDone)
 	l.logger.Infof(
 		"There are currently %d steps starting, %d waiting, %d running, %d finished. HasReadyNodes: %t",
 		counters.starting,
@@ -658,6 +709,7 @@ func (l *loopState) checkForDeadlocks(retries int, wg *sync.WaitGroup) {
 	)
 	if counters.starting == 0 && counters.running == 0 && !hasReadyNodes && !l.outputDone {
 		if retries <= 0 {
+			verifhook.Emit("ErrPush", "run", l, "kind", "nosteps", "len", len(l.recentErrors))
 			l.recentErrors <- &ErrNoMorePossibleSteps{
 				l.dag,
 			}
@@ -669,15 +721,19 @@ func (l *loopState) checkForDeadlocks(retries int, wg *sync.WaitGroup) {
 			// Retrying will delay the check until after they are done with the transition.
 			l.logger.Warningf("No running steps. Rechecking...")
 			wg.Add(1)
+			verifhook.Emit("DetArm", "run", l, "retries", retries-1)
 			go func() {
 				defer wg.Done()
 				select {
 				case <-time.After(time.Duration(5) * time.Millisecond):
 					time.Sleep(5 * time.Millisecond)
+					verifhook.Gate("wf.det.beforeLock", "run", l)
 					l.lock.Lock()
+					verifhook.Emit("DetWake", "run", l, "retries", retries-1)
 					l.checkForDeadlocks(retries-1, wg)
 					l.lock.Unlock()
 				case <-l.context.Done():
+					verifhook.Emit("DetCtxExit", "run", l, "retries", retries-1)
 					return
 				}
 			}()
